@@ -149,6 +149,17 @@ def main():
                 other = '\n'.join(['-- filler line %d' % i for i in range(1, N)] + lines[cut:]) + '\n'
                 expect = [((N + x['line'] - p_), 'zqother.as', sig(x)) if x['line'] >= p_ else (x['line'], 'x.as', sig(x)) for x in d0]
                 check('linefile-N%d' % N, '\n'.join(new), expect, {'zqother.as': other})
+            # R2b: one faulty top-level line moved into a file included in the MIDDLE of the program (the includer continues after
+            # it), with k code-free lines in front of it, k = 0 included: the diagnostic must name the included file and line
+            # k + 1, everything else keeps its place (added after seeded change C15-include-first-line-file: the first line of
+            # an included file is a boundary of the line table)
+            cands = sorted(set(x['line'] for x in d0 if x['line'] > 6 and lines[x['line'] - 1] and not lines[x['line'] - 1].startswith(('\t', '}', '#', ' '))))
+            for F in cands[:2]:
+                for k in (0, lr.choice([1, 2, 7])):
+                    main = lines[:F - 1] + ['#include "zqmid.as"'] + lines[F:]
+                    inc = ['-- zq filler'] * k + [lines[F - 1]]
+                    expect = [((k + 1, 'zqmid.as', sig(x)) if x['line'] == F else (x['line'], 'x.as', sig(x))) for x in d0]
+                    check('include-mid-k%d' % k, '\n'.join(main), expect, {'zqmid.as': '\n'.join(inc) + '\n'})
             # R5: pad the faulty line
             flines = sorted(set(x['line'] for x in d0))
             L = lr.choice(flines)
